@@ -476,7 +476,8 @@ Fixpoint dot (scalars : list (option Z)) (deltas : list Z) : Z :=
   | _, _ => 0
   end.
 
-(* zip(blended.iter_mut(), rest.chunks(k)): i-th default gets the i-th chunk of k deltas *)
+(* zip(blended.iter_mut(), rest.chunks(k.max(1))): i-th default gets the i-th chunk of k deltas;
+   with k = 0 (an ItemVariationData without regions) `rest` is empty and the defaults are the result *)
 Fixpoint blend_vals (k : nat) (scalars : list (option Z)) (defaults rest : list Z) : list Z :=
   match defaults with
   | [] => []
@@ -505,7 +506,6 @@ Definition blend (e : env) (scalars : list (option Z)) (s : ist) : cres ist :=
       let num := n * (k + 1) in
       if len (stk s1) <? num then CErr EInvalidArgumentsStackLength else
       if CFF2_MAX_OPERANDS <? n then CErr EInvalidOperand else
-      if k =? 0 then CPanic else                       (* rest.chunks(0) *)
       let base := take (len (stk s1) - num) (stk s1) in
       let operands := drop (len (stk s1) - num) (stk s1) in
       let defaults := take n operands in
